@@ -6,6 +6,10 @@
    tables must agree with its records (C06).                                   *)
 EXTENDS Query, Json, IOUtils
 
+\* "C06" / "C16": the image is a state between two complete calls and its derived tables agree with its records;
+\* "C13": only that the per-author heads of the image are the greatest timestamps of the records of the image
+CONSTANT Prop
+
 Rec == ndJsonDeserialize(IOEnv.TRACE)
 VARIABLES l, live, age, kinds
 vars == <<l, live, age, kinds>>
@@ -25,7 +29,12 @@ Commits(kind) == kind \in {"Flush", "GetMany", "Reopen", "DropDerived"}
 SetMax(S) == CHOOSE x \in S : \A y \in S : y <= x
 DurableAt(i) == SetMax({0} \cup {j \in 1..i : Commits(kinds[j])}
                        \cup (IF age[1] >= 1 /\ age[1] <= i THEN {age[1] - 1} ELSE {}))
+HeadsConsistent(dd) ==
+  /\ \A i, j \in 1..Len(dd.heads) : dd.heads[i].a = dd.heads[j].a => i = j
+  /\ HeadsFn(dd.heads) = HeadsOf(ToSet(dd.st))
 ImgOk(r) ==
+  IF Prop = "C13" THEN r.opened => \A o \in 1..Len(r.docs) : HeadsConsistent(r.docs[o])
+  ELSE
   /\ r.opened
   /\ \E m \in DurableAt(r.i)..r.i : r.docs = live[m + 1].docs /\ r.hashes = live[m + 1].hashes
   /\ \A o \in 1..Len(r.docs) : Consistent(r.docs[o])
